@@ -402,3 +402,56 @@ func className(o *opDef) string {
 func (e edge) key() string {
 	return className(e.parent.op) + "/" + posName(e.parent, e.pos) + ":" + className(e.child.op)
 }
+
+// regroup returns the tree in which edge e is grouped the other way round (what a parser with the
+// opposite precedence / associativity for this pair would build); nil if there is no such reading.
+// Sub-trees are shared with the original (nothing is mutated).
+func regroup(root *node, e edge) *node {
+	p, c, pos := e.parent, e.child, e.pos
+	mk := func(proto *node, kids ...*node) *node {
+		n := *proto
+		n.kids = kids
+		return &n
+	}
+	var alt *node
+	switch {
+	case c.op.kind == kBinary && (p.op.kind == kBinary || p.op.kind == kElvis):
+		a, b := c.kids[0], c.kids[1]
+		if pos == 0 {
+			alt = mk(c, a, mk(p, b, p.kids[1]))
+		} else {
+			alt = mk(c, mk(p, p.kids[0], a), b)
+		}
+	case c.op.kind == kPrefix && (p.op.kind == kBinary || p.op.kind == kElvis) && pos == 0:
+		alt = mk(c, mk(p, c.kids[0], p.kids[1]))
+	case c.op.kind == kBinary && p.op.kind == kPrefix:
+		alt = mk(c, mk(p, c.kids[0]), c.kids[1])
+	case c.op.kind == kBinary && p.op.kind == kTernary && pos == 0:
+		alt = mk(c, c.kids[0], mk(p, c.kids[1], p.kids[1], p.kids[2]))
+	case c.op.kind == kBinary && p.op.kind == kTernary && pos == 2:
+		alt = mk(c, mk(p, p.kids[0], p.kids[1], c.kids[0]), c.kids[1])
+	case c.op.kind == kPrefix && p.op.kind == kTernary && pos == 0:
+		alt = mk(c, mk(p, c.kids[0], p.kids[1], p.kids[2]))
+	case c.op.kind == kBinary && p.op.kind == kAssign:
+		alt = mk(c, mk(p, c.kids[0]), c.kids[1])
+	}
+	if alt == nil {
+		return nil
+	}
+	var cp func(x *node) *node
+	cp = func(x *node) *node {
+		if x == p {
+			return alt
+		}
+		if x.op == nil {
+			return x
+		}
+		n := *x
+		n.kids = make([]*node, len(x.kids))
+		for i, k := range x.kids {
+			n.kids[i] = cp(k)
+		}
+		return &n
+	}
+	return cp(root)
+}
